@@ -346,6 +346,8 @@ def check_C07(ctx):
             ctx.violation("policy", "argv %r holds a value that does not convert (policy %d) but the invocation ended %r with trace %r and error line %r"
                           % (c["argv"], c["_pol"], a["outcome"], a["trace"], a["stderr"][:1]), case=c)
     ctx.stream("unconvertible value in every position", len(bad_cases))
+    from props import plain_program
+    plain_program(ctx, "C07")
     # a command may set its policy after declaring its sub-commands, which then do not inherit it (Command() copies the field
     # when the sub-command is created). The model has no notion of "late": judged by the property's oracle only.
     late = []
@@ -518,6 +520,8 @@ def check_C14(ctx):
             if a["trace"] or a["outcome"] != want_out or a["stderr"] != ["v1.2"]:
                 ctx.violation("version", "%r: expected the version string and end %r; got %r %r" % (argv, want_out, a["stderr"][:2], a["outcome"]), case=c)
     ctx.stream("help token at every position", 0, **stats)
+    from props import plain_program
+    plain_program(ctx, "C14")
     ctx.sample({"argv": cases[0]["argv"]})
     return ("random trees x paths x valid and invalid per-level command lines x a help token inserted at every "
             "position x a policy per command x with/without a version flag (first position and elsewhere)")
